@@ -121,7 +121,50 @@ func verifC10ck(maxF, maxS int, checkpoints, directives bool) {
 	}
 }
 
-func VerifHarness_C10_quick()    { verifC10(2, 2) }
+func VerifHarness_C10_quick() { verifC10(2, 2) }
+
+// verifC10Twice: the process dies twice - during the first run and again during
+// the re-run - and a third run must still complete the migration (tx-mode none,
+// one file of three statements: the progress recorded by a *resumed* run is what
+// the next run has to accept).
+func verifC10Twice() {
+	nf, ns := 1, 3
+	sh := verifShape{nf: nf, ns: ns, directive: make([]string, nf), failFile: -1, failStmt: -1}
+	c1 := verifInt("crash1", 0, 2*ns+4)
+	c2 := verifInt("crash2", 0, 2*ns+4)
+	env := verifNewEnv()
+	defer env.close()
+	env.setDir(sh)
+	env.setCrash(c1)
+	err1 := env.apply(txModeNone, false, 0, "")
+	env.setCrash(-1)
+	env.setCrash(c2)
+	err2 := env.apply(txModeNone, false, 0, "")
+	env.setCrash(-1)
+	if err1 != nil && err2 != nil {
+		verifReach("crashed-twice")
+	}
+	err := env.apply(txModeNone, false, 0, "")
+	verifAssert(err == nil, "after two crashes the same command still completes")
+	final := env.snapshot()
+	verifObserve("journal", verifJoin(final.journal))
+	extra := 0
+	for s := 0; s < ns; s++ {
+		id := fmt.Sprintf("S0_%d", s)
+		n := 0
+		for _, j := range final.journal {
+			if j == id {
+				n++
+			}
+		}
+		verifAssert(n >= 1, "no statement is lost")
+		extra += n - 1
+	}
+	verifAssert(extra <= 2, "at most the statement in flight at each crash is executed again")
+	verifAssert(len(final.revs) == 1 && final.revs[0].applied == ns && final.revs[0].total == ns, "the file ends fully applied")
+}
+
+func VerifHarness_C10_twice()    { verifC10Twice() }
 func VerifHarness_C10_dir()      { verifC10dir(2, 2) }
 func VerifHarness_C10_dir3()     { verifC10dir(3, 2) }
 func VerifHarness_C10_ckpt()     { verifC10ck(2, 2, true, false) }
